@@ -17,7 +17,7 @@ THEOREMS = {"Proofs.Props.C11": ["MsPack.C11.mszip_init_fill_independent", "MsPa
 ASSUMPTIONS = ["fill-independence is proved for the LZSS decoder (its ring is memset) and stored CAB folders; MSZIP/Quantum/LZX/LZH take the fill byte as a model parameter and are validated by the two-fill oracle, MSan and model agreement",
                "MSan observes definedness at write(), branches and callback arguments"]
 RULE = ("well-formed and malformed archives of all five formats (4-6 mutations each) plus directed constructions (a match before the first byte of the stream for MSZIP / Quantum / LZX, "
-        "LZH code-length type nibbles 4-15, truncated LZH tables, short KWAJ files), each run under 4 fill bytes and under MSan; non-trivial = a case that produced output or an error status; distinct by archive bytes")
+        "LZSS matches into the ring at/ahead of the initial write position (SZDD, QBasic, KWAJ), LZH code-length type nibbles 4-15, truncated LZH tables, short KWAJ files, CAB members declared longer than their folder's blocks hold), each run under 4 fill bytes and under MSan; non-trivial = a case that produced output or an error status; distinct by archive bytes")
 
 FILLS = ["00", "55", "aa", "ff"]
 
@@ -71,6 +71,45 @@ def directed(rng):
     out.append(([f"file f.kwj {trunc}", "new kwaj", "open i0 f.kwj", "extract i0 h0 - o", "close i0 h0", "destroy i0"], dict(family="kwaj.lzh-truncated-tables")))
     for data in (b"", b"KW", b"not-a-kwaj-file-at-all"):
         out.append(([f"file f.kwj {C.hexs(data)}", "new kwaj", "open i0 f.kwj", "destroy i0"], dict(family="kwaj.short")))
+    # LZSS: match tokens carry absolute ring positions, so the very first token may copy from the part of the
+    # ring at / ahead of the initial write position (4080.. for SZDD, 4078.. for QBasic and KWAJ) - initial
+    # history that the decoder must have filled with spaces
+    import struct
+    for mpos in (4078, 4080, 4085, 4095, 0, 2000):
+        for ln in (3, 18):
+            tok = bytes([mpos & 0xFF, ((mpos >> 4) & 0xF0) | (ln - 3)])
+            body = bytes([0x00]) + tok * 2 + bytes([0x03, 0x41, 0x42]) + tok
+            out.append(([f"file f.sz_ {(bytes([0x53,0x5a,0x44,0x44,0x88,0xf0,0x27,0x33,0x41,0x5f]) + struct.pack('<I', 3 * ln + 2) + body).hex()}",
+                         "new szdd", "open i0 f.sz_", "extract i0 h0 - o", "close i0 h0", "destroy i0"], dict(family="szdd.match-ahead-of-start", mpos=mpos)))
+            out.append(([f"file f.sz_ {(bytes([0x53,0x5a,0x20,0x88,0xf0,0x27,0x33,0xd1]) + struct.pack('<I', 3 * ln + 2) + body).hex()}",
+                         "new szdd", "open i0 f.sz_", "extract i0 h0 - o", "close i0 h0", "destroy i0"], dict(family="szdd.qbasic-match-ahead-of-start", mpos=mpos)))
+            kw = b"KWAJ\x88\xf0\x27\xd1" + struct.pack("<HHH", 2, 14, 0) + body
+            out.append(([f"file f.kwj {kw.hex()}", "new kwaj", "open i0 f.kwj", "extract i0 h0 - o", "close i0 h0", "destroy i0"], dict(family="kwaj.lzss-match-ahead-of-start", mpos=mpos)))
+    # a member declared longer than what its folder's data blocks hold (the declared end still inside
+    # num_blocks * 32768, so extract()'s up-front test lets it through): the decoder runs out of blocks
+    # in the middle of the member; whatever it then hands to write() must not come from fresh memory
+    import zlib
+    for comp in (0, 1):
+        for blocks in ((20,), (50, 7), (32768, 100)):
+            datas = [bytes(rng.choice(b"abcdef") for _ in range(n)) for n in blocks]
+            if comp == 1:
+                def ck(d):
+                    co = zlib.compressobj(9, zlib.DEFLATED, -15); return b"CK" + co.compress(d) + co.flush()
+                payloads = [(ck(d), len(d)) for d in datas]
+            else:
+                payloads = [(d, len(d)) for d in datas]
+            have = sum(blocks)
+            for extra in (1, 13, 5000):
+                files = [dict(name=b"a.bin", length=have + extra, offset=0, folder=0)]
+                if have > 10: files.append(dict(name=b"b.bin", length=extra + 10, offset=have - 10, folder=0))
+                try:
+                    cab, _ = minicab.build([(comp, payloads)], files)
+                except Exception:
+                    continue
+                for salv in (0, 1):
+                    out.append(([f"file x.cab {cab.hex()}", "new cab", f"param i0 SALVAGE {salv}", "param i0 DECOMPBUF 64", "open i0 x.cab"] +
+                                [f"extract i0 h0 {k} o{k}" for k in range(len(files))] + ["close i0 h0", "destroy i0"],
+                                dict(family="cab.member-beyond-blocks", comp=comp, salvage=salv)))
     return out
 
 def generate(ctx):
